@@ -38,8 +38,9 @@ for p, slices in VOCAB_THOROUGH:
             runs.append({"src": "harness/c13_vocab.cpp", "flavour": fl, "std": "c++20",
                          "defs": ["-DMC_PART=%d" % p, "-DC13_THOROUGH=1", "-DMC_SLICES=%d" % slices, "-DMC_SLICE=%d" % sl], "cxxflags": CX,
                          "tiers": ["thorough"]})
-# approximating cmath functions at the boundary arguments of their documented domain: success probes (round 2, direction 4)
-runs.append({"src": "harness/c13_cmath.cpp", "flavour": "O2", "std": "c++20", "defs": ["-DMC_PART=9", "-DC13_THOROUGH=1"], "cxxflags": CX, "tiers": ["thorough"]})
+# NOT registered: c13_cmath.cpp part 9 (success probes of the APPROXIMATING cmath functions at boundary arguments).  C13 speaks
+# about operations with an exactly specified result; holding gcem's approximations to "constant evaluation succeeds" demands
+# more than the property states (DESIGN.md section 0, correction vi).  Their compile-time path is C16's subject.
 # contract checks on (flavour chk): every precondition of a valid call must itself be a constant expression
 for p in [1, 2, 3, 4, 5, 6, 7, 8]:
     runs.append({"src": "harness/c13_kernels.cpp", "flavour": "chk", "std": "c++20", "defs": ["-DMC_PART=%d" % p], "cxxflags": CX, "tiers": ["thorough"]})
@@ -143,7 +144,7 @@ prop = {
         "g++ 12 constant evaluator and code generator are the two executors; no third oracle (a value both paths get wrong is C14/C16/C18's business, not C13's)",
         "x86-64, default rounding mode (rint/lrint/llrint round to nearest even)",
         "NaN results are compared as 'is NaN' (sign and payload ignored); every other result bit for bit (long double: the 80 value bits)",
-        "the approximating cmath functions (sin, exp, pow, sqrt, ...) are outside the VALUE half of the statement ('exactly specified result ... the rounding/classification part of cmath'); since round 2 the thorough tier holds them to the other half, 'constant evaluation succeeds for every argument inside the documented domain', on a boundary table P (+-0, +-denorm_min, largest subnormal, +-min, epsilon, 0.5, 1-ulp, 1, 1+ulp, 1.5, 2, e, 3, 10, 20, 100, pi/2, pi, 2^digits, 2^62, 2^64, 2^100, max/2, max, +-inf, NaN; binary functions on a 26-value subset squared). Domain = no domain, pole or range error of the C standard (7.12.1): sin/cos/tan of infinities, asin/acos outside [-1,1], atanh at +-1, log of 0 or negatives, overflowing and underflowing results, subnormal arguments of the functions with f(x) ~ x are out. Failures are gcem limitations, listed per (function, type, magnitude bucket) in fixes_proposed/C13/r2-known.json; the own two- and three-argument hypot is repaired by r2-01-hypot-overflow.patch. Harness parts 4-6 of c13_cmath.cpp (the whole table B) stay unregistered",
+        "the approximating cmath functions (sin, exp, pow, sqrt, ...) are outside the statement ('exactly specified result ... the rounding/classification part of cmath'): neither their values nor the success of their constant evaluation is judged here (C16 owns their compile-time path); harness parts 4-6 and 9 of c13_cmath.cpp stay unregistered",
         "mem* functions are not constexpr in tetl (API gap)",
         "API gaps met in round 2 (not called): inplace_function / function_ref are not constexpr; static_set::equal_range is declared with a single-iterator return type and does not compile; year_month_day_last::operator sys_days and the year_month_weekday conversions are declared but not defined; tuple<T&...> has no converting assignment (tie(...) = tuple); tuple has only operator== (no ordering); bitset has no shift operators",
         "with g++ the C-string functions (strlen, strcmp, strchr, memchr ...) have a single code path (the __builtin_ branch is clang-only) and char_traits has no is_constant_evaluated split: the character-type sweep can only find a difference through undefined behaviour",
